@@ -9,6 +9,7 @@ import (
 	"fmt"
 	"net/http"
 	"strings"
+	"sync"
 	"testing"
 	"time"
 
@@ -21,18 +22,22 @@ import (
 
 // scripted RoundTripper for the DoH transport
 type c18RT struct {
+	mu      sync.Mutex
 	pending []chan *http.Response
 	reqs    []*http.Request
 	closed  int
 }
 
 func (r *c18RT) RoundTrip(req *http.Request) (*http.Response, error) {
+	r.mu.Lock()
 	if r.closed > 0 { // like a closed quic transport / http client
+		r.mu.Unlock()
 		return nil, fmt.Errorf("scripted round tripper is closed")
 	}
 	ch := make(chan *http.Response, 1)
 	r.pending = append(r.pending, ch)
 	r.reqs = append(r.reqs, req)
+	r.mu.Unlock()
 	select {
 	case resp := <-ch:
 		if resp == nil {
@@ -43,7 +48,11 @@ func (r *c18RT) RoundTrip(req *http.Request) (*http.Response, error) {
 		return nil, req.Context().Err()
 	}
 }
+func (r *c18RT) nClosed() int { r.mu.Lock(); defer r.mu.Unlock(); return r.closed }
+
 func (r *c18RT) Close() error {
+	r.mu.Lock()
+	defer r.mu.Unlock()
 	r.closed++
 	for _, ch := range r.pending { // in-flight requests fail
 		select {
@@ -73,13 +82,14 @@ func c18Kinds() []c18Kind {
 			panic(err)
 		}
 		return t, func() []string {
-			if rt.closed == 0 {
+			if rt.nClosed() == 0 {
 				return []string{"the transport's closer (quic transport / connection pool of the http client) was never closed"}
 			}
 			return nil
 		}
 	}, true})
 	ks = append(ks, c18Kind{"quic", func(d *env.Dialer) (c14Transport, func() []string) {
+		var cmu sync.Mutex
 		var conns []*env.FakeQuicConn
 		t := NewQuicTransport(QuicTransportOpts{DialContext: func(ctx context.Context) (quic.Connection, error) {
 			// reuse the scripted dialer's outcome script; the produced net.Conn is discarded
@@ -88,11 +98,15 @@ func c18Kinds() []c18Kind {
 				return nil, err
 			}
 			fc := env.NewFakeQuicConn(c.LocalAddr(), c.RemoteAddr())
+			cmu.Lock()
 			conns = append(conns, fc)
+			cmu.Unlock()
 			return fc, nil
 		}})
 		return t, func() []string {
 			var bad []string
+			cmu.Lock()
+			defer cmu.Unlock()
 			for i, c := range conns {
 				if !c.IsClosed() {
 					bad = append(bad, fmt.Sprintf("quic connection %d still open", i))
@@ -133,13 +147,16 @@ func c18Scenario(c *choice.Ctx, rep *report.R, k c18Kind, depth int) {
 		go func() {
 			defer func() {
 				if r := recover(); r != nil {
-					fail("close-panic", fmt.Sprint(r))
+					publish(func() { fail("close-panic", fmt.Sprint(r)) })
 				}
 			}()
-			if err := tr.Close(); err != nil {
-				fail("close-error", err.Error())
-			}
-			closeReturned++
+			err := tr.Close()
+			publish(func() {
+				if err != nil {
+					fail("close-error", err.Error())
+				}
+				closeReturned++
+			})
 		}()
 	}
 	for step := 0; step < depth; step++ {
@@ -152,7 +169,7 @@ func c18Scenario(c *choice.Ctx, rep *report.R, k c18Kind, depth int) {
 				cl.start(tr, timeout)
 			}})
 		}
-		if d.Dials == len(d.DialAt) && closes == 0 {
+		if true && closes == 0 {
 			menu = append(menu, event{name: "next-dial-late", fault: true, do: func() { d.Script(env.DialLate) }})
 			menu = append(menu, event{name: "next-dial-late-ignoring-ctx", fault: true, do: func() { d.Script(env.DialLateForce) }})
 		}
@@ -179,7 +196,7 @@ func c18Scenario(c *choice.Ctx, rep *report.R, k c18Kind, depth int) {
 		if closes < 2 {
 			menu = append(menu, event{name: "close", fault: closes == 1, do: doClose})
 		}
-		menu = append(menu, event{name: "advance2s", do: func() { time.Sleep(2 * time.Second) }})
+		menu = append(menu, event{name: "advance2s", do: func() { hsleep(2 * time.Second) }})
 		ev := pick(c, menu)
 		if ev == nil {
 			break
@@ -230,7 +247,7 @@ func c18Scenario(c *choice.Ctx, rep *report.R, k c18Kind, depth int) {
 	for _, cl := range calls {
 		cl.cancel()
 	}
-	time.Sleep(7 * time.Second)
+	hsleep(7 * time.Second)
 	wait()
 	for _, cl := range calls {
 		if !cl.done {
